@@ -181,7 +181,7 @@ pub fn strategy() -> BoxedStrategy<Case> {
 
 pub fn run(ctx: &Ctx, known: &[Known]) -> Report {
     let cases = match ctx.tier {
-        Tier::Quick => 40_000,
+        Tier::Quick => 200_000,
         Tier::Thorough => 1_500_000,
     };
     let stats = run_generated(ctx, "C11", "gen", &strategy, &check, cases, known);
